@@ -197,7 +197,9 @@ def _step(ctx, S):
     elif fexec or (0x63 <= o <= 0x68):
         n = NAME.get(o, 'UNDEFINED')
         if o in DISABLED:
-            raise RefAbort('re-enabled opcode: property C17')
+            if len(st) < EXT_ARITY[n]: raise Fail(ERR('INVALID_STACK_OPERATION'))
+            try: _extended(ctx, S, n, minimal)
+            except Fail: raise Fail(ANYERR)          # invalid operand: some script error / caught exception, which one is not prescribed
         elif o == 0x4f or 0x51 <= o <= 0x60:
             push_num(z3.BitVecVal(o - 0x50, 64))
         elif n == 'OP_NOP': pass
@@ -330,3 +332,72 @@ def check_sequence(S, sq):
     a = sq & MASK; b = seq & MASK
     same = z3.Or(z3.And(a < TYPE, b < TYPE), z3.And(a >= TYPE, b >= TYPE))
     return z3.simplify(z3.And(z3.UGE(ver, 2), (seq & (1 << 31)) == 0, same, a <= b))
+
+EXT_ARITY = {'OP_CAT': 2, 'OP_SUBSTR': 3, 'OP_LEFT': 2, 'OP_RIGHT': 2, 'OP_INVERT': 1, 'OP_AND': 2, 'OP_OR': 2, 'OP_XOR': 2, 'OP_2MUL': 1, 'OP_2DIV': 1, 'OP_MUL': 2, 'OP_DIV': 2, 'OP_MOD': 2, 'OP_LSHIFT': 2, 'OP_RSHIFT': 2}
+ANYERR = '*'      # the operation must fail with some script error (which one is not prescribed), and must not crash
+
+def _extended(ctx, S, n, minimal):
+    """the functions the re-enabled opcode names denote (string, bitwise and signed 64-bit integer functions on script values).
+    Domain compared: numeric operands of at most 4 bytes; results that fit the script-number range of int64.
+    Outside it (stated in the evidence) only crash-freedom is demanded."""
+    st = S.stack
+    def need(k):
+        if len(st) < k: raise Fail(ERR('INVALID_STACK_OPERATION'))
+    def num(item):
+        if len(item) > 4: raise RefAbort('numeric operand longer than 4 bytes: outside the compared domain of C17')
+        return num_decode(ctx, item, minimal, 4)
+    def idx(item):
+        # offsets / sizes: small non-negative numbers; the implementation's 2-byte limit is accepted (longer => must fail)
+        if len(item) > 2: raise Fail(ANYERR)
+        return num_decode(ctx, item, minimal, 2)
+    if n == 'OP_CAT':
+        need(2); b = st.pop(); a = st.pop()
+        if len(a) + len(b) > MAX_ELEM: raise RefAbort('concatenation longer than 520 bytes: not prescribed')
+        st.append(list(a) + list(b))
+    elif n == 'OP_SUBSTR':
+        need(3)
+        src = st[-3]; b = idx(st[-2]); k = idx(st[-1])
+        if ctx.branch(z3.Or(b < 0, k < 0, b + k > len(src))): raise Fail(ANYERR)
+        for bi in range(len(src) + 1):
+            if ctx.branch(b == bi):
+                for ki in range(len(src) - bi + 1):
+                    if ctx.branch(k == ki):
+                        st.pop(); st.pop(); st.pop(); st.append(list(src[bi:bi + ki])); return
+        raise AssertionError('unreachable')
+    elif n in ('OP_LEFT', 'OP_RIGHT'):
+        need(2)
+        src = st[-2]; k = idx(st[-1])
+        if ctx.branch(z3.Or(k < 0, k > len(src))): raise Fail(ANYERR)
+        for ki in range(len(src) + 1):
+            if ctx.branch(k == ki):
+                st.pop(); st.pop(); st.append(list(src[:ki]) if n == 'OP_LEFT' else list(src[len(src) - ki:])); return
+        raise AssertionError('unreachable')
+    elif n == 'OP_INVERT':
+        need(1); a = st.pop(); st.append([simp_t(~B(x)) for x in a])
+    elif n in ('OP_AND', 'OP_OR', 'OP_XOR'):
+        need(2)
+        if len(st[-1]) != len(st[-2]): raise Fail(ANYERR)
+        b = st.pop(); a = st.pop()
+        f = {'OP_AND': lambda x, y: x & y, 'OP_OR': lambda x, y: x | y, 'OP_XOR': lambda x, y: x ^ y}[n]
+        st.append([simp_t(f(B(x), B(y))) for x, y in zip(a, b)])
+    elif n in ('OP_2MUL', 'OP_2DIV'):
+        need(1)
+        a = num(st[-1]); st.pop()
+        r = a * 2 if n == 'OP_2MUL' else z3.If(a < 0, -((-a) / 2), a / 2)        # truncation toward zero
+        st.append(num_encode(ctx, simp_t(r)))
+    elif n in ('OP_MUL', 'OP_DIV', 'OP_MOD', 'OP_LSHIFT', 'OP_RSHIFT'):
+        need(2)
+        a = num(st[-2]); b = num(st[-1])
+        if n in ('OP_DIV', 'OP_MOD') and ctx.branch(b == 0): raise Fail(ANYERR)
+        if n in ('OP_LSHIFT', 'OP_RSHIFT'):
+            if ctx.branch(z3.Or(b < 0, b >= 64)): raise RefAbort('shift count negative or >= 64: result not prescribed (only crash-freedom)')
+            if ctx.branch(a < 0): raise RefAbort('shift of a negative number: not prescribed (sign-magnitude vs two\'s complement)')
+            if n == 'OP_LSHIFT' and ctx.branch(z3.Or(b >= 32, a >= (1 << 31))): raise RefAbort('left shift beyond the 64-bit range: not prescribed')
+        absa = z3.If(a < 0, -a, a); absb = z3.If(b < 0, -b, b)
+        if n == 'OP_MUL': r = a * b
+        elif n == 'OP_DIV': q = z3.UDiv(absa, absb); r = z3.If((a < 0) != (b < 0), -q, q)
+        elif n == 'OP_MOD': m = z3.URem(absa, absb); r = z3.If(a < 0, -m, m)
+        elif n == 'OP_LSHIFT': r = a << b
+        else: r = z3.LShR(a, b)
+        st.pop(); st.pop(); st.append(num_encode(ctx, simp_t(r)))
+    else: raise AssertionError(n)
